@@ -1245,7 +1245,6 @@ func constSelectedReturns(v ssa.Value, from *ssa.BasicBlock) ([]ssa.Value, bool)
 	return out, true
 }
 
-
 // errSlotRead: v reads the sender's close error out of the shared slot: *(*s.senderErr), or s.senderErr.get() where get is an
 // accessor of the slot's cell type (one return: a field of its receiver).
 func errSlotRead(v ssa.Value) bool {
@@ -1308,7 +1307,6 @@ func errSlotSetterCall(call *ssa.Call) (ssa.Value, bool) {
 	}
 	return nil, false
 }
-
 
 // isErrSlotPtr: v is the pointer kept in the senderErr field: a load of that field, or a parameter of an unexported helper
 // that is given it (at its single forwarding call site, or at every call site).
